@@ -463,7 +463,9 @@ class Check(PropertyCheck):
                   "or for an HTTP/2 client) for ALL histories of requests, connection results, peer closes, completed exchanges, "
                   "raw state changes, error marks and attribute assignments (invariants by induction over the history): "
                   "routed_to_matching, failed_not_reused, errored_never_routed, dead_entry_never_routed, "
-                  "failed_attempt_never_routed, open_conn_immutable, open_interval_immutable, setAttr_guard, waiting_matches "
+                  "failed_attempt_never_routed, pending_not_connected, the whole-history forms from an empty pool "
+                  "errored_never_routed_reachable / dead_entry_never_routed_reachable / failed_attempt_never_routed_reachable, "
+                  "open_conn_immutable, open_interval_immutable, setAttr_guard, waiting_matches "
                   "(+ pending_poke_misroutes: the admissibility hypothesis is necessary). "
                   "The model is tied to the real HttpLayer/HttpStream/HttpClient/ServerTLSLayer/HttpUpstreamProxy stack run "
                   "through world.py: after every step of a history the routing decisions and the whole pool (attributes, state, "
@@ -477,8 +479,8 @@ class Check(PropertyCheck):
                   "while its attempt is pending (the guard does not cover that: a server_connect hook doing so redirects "
                   "deliberately); the hypothesis is explicit (Admissible) and shown necessary by pending_poke_misroutes. "
                   "dead_entry_never_routed / failed_attempt_never_routed assume that raw state changes never re-open a socket "
-                  "(NoReopen) and, for the latter, that the pending connection is not connected before its result arrives "
-                  "(visible in every pool dump of the tie, not proved as an invariant). Lenient branches (generator domain, no oracle "
+                  "(NoReopen); that a pending connection is not connected before its result arrives is now derived "
+                  "(pending_not_connected), so failed_attempt_never_routed_reachable has no hypothesis about the pool. Lenient branches (generator domain, no oracle "
                   "waiver): pokes of a connection whose attempt is pending or whose tunnel is still connecting are not made; in "
                   "reverse modes the context connection's address is never set to None (transparent-mode streams assert it); an "
                   "HTTP/1 client sends one request at a time; the oracle's socket clause uses the harness's own record of what each "
